@@ -116,7 +116,7 @@ func (p *Program) entryReach(e *ssa.Function) map[*ssa.Function]bool {
 		if keep {
 			seen[f] = true
 		}
-		if n := cg.Nodes[f]; n != nil {
+		if n := cgNodeOf(cg, f); n != nil {
 			for _, ed := range n.Out {
 				if _, isGo := ed.Site.(*ssa.Go); isGo {
 					continue
